@@ -103,7 +103,9 @@ EmitBehaviours == (Emit /\ Len(hist) = MaxLen) => PrintT(<<"BEH", act, hist>>)
 (* as the set of the non-default leaves "path=value" of its projection     *)
 (* (harness/act.Flatten); the expected effect of a call is the set of      *)
 (* leaves that disappear and the set that appear (the emitted messages and *)
-(* the return data are leaves of the post-state).                          *)
+(* the return data are leaves of the post-state).  The frozen and paused   *)
+(* flags are shown as the real decoders read them (frozen=true / =true);   *)
+(* their byte layout is the business of C20.                               *)
 (*                                                                         *)
 (* Scenario calls (caller -> recipient, arguments):                        *)
 (*   ClaimDeveloperRewards  u0a -> c0a                                     *)
@@ -131,7 +133,7 @@ S0 ==
    "w.acct.c0a.owner=u0a",
    "w.acct.u0a.ctr.'NFTK-04'=1",
    "w.acct.u0a.esdt.'FUNG-01'.val=10",
-   "w.acct.u0a.esdt.'GFRZ-02'.props=0100",
+   "w.acct.u0a.esdt.'GFRZ-02'.frozen=true",
    "w.acct.u0a.esdt.'GFRZ-02'.val=6",
    "w.acct.u0a.esdt.'NFTK-04'#01.hm=true",
    "w.acct.u0a.esdt.'NFTK-04'#01.meta.attrs='attr1'",
@@ -151,7 +153,7 @@ S0 ==
    "w.acct.u0a.roles.'NFTK-04'.3='ESDTRoleNFTAddURI'",
    "w.acct.u0a.roles.'NFTK-04'.4='ESDTRoleNFTUpdateAttributes'",
    "w.acct.u0b.esdt.'FUNG-01'.val=4",
-   "w.paused.0.'HPAU-03'=0100"}
+   "w.paused.0.'HPAU-03'=true"}
 Sig(n) ==
   CASE n = "ClaimDeveloperRewards" ->
          [del |-> {"w.acct.c0a.dev=7"},
@@ -178,20 +180,20 @@ Sig(n) ==
           add |-> {"w.acct.u0a.esdt.'FUNG-01'.val=7"}]
     [] n = "ESDTFreeze" ->
          [del |-> {},
-          add |-> {"w.acct.u0b.esdt.'FUNG-01'.props=0100"}]
+          add |-> {"w.acct.u0b.esdt.'FUNG-01'.frozen=true"}]
     [] n = "ESDTUnFreeze" ->
-         [del |-> {"w.acct.u0a.esdt.'GFRZ-02'.props=0100"},
-          add |-> {"w.acct.u0a.esdt.'GFRZ-02'.props=0000"}]
+         [del |-> {"w.acct.u0a.esdt.'GFRZ-02'.frozen=true"},
+          add |-> {}]
     [] n = "ESDTWipe" ->
-         [del |-> {"w.acct.u0a.esdt.'GFRZ-02'.props=0100",
+         [del |-> {"w.acct.u0a.esdt.'GFRZ-02'.frozen=true",
                    "w.acct.u0a.esdt.'GFRZ-02'.val=6"},
           add |-> {}]
     [] n = "ESDTPause" ->
          [del |-> {},
-          add |-> {"w.paused.0.'FUNG-01'=0100"}]
+          add |-> {"w.paused.0.'FUNG-01'=true"}]
     [] n = "ESDTUnPause" ->
-         [del |-> {"w.paused.0.'HPAU-03'=0100"},
-          add |-> {"w.paused.0.'HPAU-03'=0000"}]
+         [del |-> {"w.paused.0.'HPAU-03'=true"},
+          add |-> {}]
     [] n = "ESDTSetRole" ->
          [del |-> {},
           add |-> {"w.acct.u0b.roles.'FUNG-01'.0='ESDTRoleLocalMint'"}]
